@@ -83,6 +83,10 @@ ALL_TREES = [t for n in range(1, 6) for t in rooted_trees(n)]
 assert len(ALL_TREES) == 17
 
 
+# routes through the configuration object (anchor renormalizer/utils/configs.py): evolution method x adaptive flag
+VIAS = [{"evolve": ev, "adaptive": ad} for ev in ("prop_and_compress_tdrk", "tdvp_ps") for ad in (0, 1)]
+
+
 class C19(Prop):
     id = "C19"
     level = "exploration"
@@ -90,7 +94,8 @@ class C19(Prop):
             "stage / order / ti-coefficient / Taylor-table conditions (all enumerated, each counted as non-trivial); "
             "generated part: (method, random polynomial non-autonomous ODE system of dimension 1-3) pairs, the RK step map "
             "and the exact flow expanded as power series in h by the harness and compared through h^p; non-trivial "
-            "when the right-hand side is non-linear")
+            "when the right-hand side is non-linear.  Every finite case and half of the generated ones are also evaluated on "
+            "EvolveConfig(method, rk_solver, adaptive).rk_config / .taylor_config (2 evolution methods x adaptive 0/1)")
     assumptions = ["Butcher order conditions computed by the harness (elementary weights, density gamma)",
                    "advertised orders taken from the method names/literature table in the harness",
                    "power-series arithmetic (truncated convolution) of the harness"]
@@ -107,8 +112,19 @@ class C19(Prop):
             for row in range(len(ADVERTISED[m])):
                 for t in ALL_TREES:
                     cases.append({"kind": "tree", "method": m, "row": row, "tree": to_list(t)})
+        # the same tables as the integrators receive them: EvolveConfig(rk_solver=m, adaptive=...).rk_config
+        for m in METHODS:
+            for via in VIAS:
+                cases.append({"kind": "structure", "method": m, "via": via})
+                cases.append({"kind": "ti", "method": m, "via": via})
+                for row in range(len(ADVERTISED[m])):
+                    for t in ALL_TREES:
+                        cases.append({"kind": "tree", "method": m, "row": row, "tree": to_list(t), "via": via})
         for n in list(range(0, 41)) + [60, 100, 170]:
             cases.append({"kind": "taylor", "order": n})
+        for via in VIAS:
+            for to in (None, 0, 1, 2, 3, 4, 5, 6, 8, 12):
+                cases.append({"kind": "taylor_config", "via": via, "taylor_order": to})
         return cases
 
     def strategy(self, tier):
@@ -116,6 +132,7 @@ class C19(Prop):
         return st.fixed_dictionaries({
             "kind": st.just("ode"),
             "method": st.sampled_from(METHODS),
+            "via": st.sampled_from([None, None] + VIAS),
             "dim": st.integers(1, 3),
             "t0": st.sampled_from([0.0, 0.3, -0.7, 1.1]),
             "lin": st.lists(coef, min_size=9, max_size=9),
@@ -146,14 +163,45 @@ class C19(Prop):
             r.nontrivial = True
             r.classes.append("taylor")
             return r
+        via = spec.get("via")
+        if kind == "taylor_config":
+            from renormalizer.utils.configs import EvolveConfig
+
+            kw = {} if spec["taylor_order"] is None else {"taylor_order": spec["taylor_order"]}
+            cfg = EvolveConfig(method=via["evolve"], adaptive=bool(via["adaptive"]), **kw)
+            te = cfg.taylor_config
+            # documented defaults of EvolveConfig: 5 when adaptive, else 4
+            n = spec["taylor_order"] if spec["taylor_order"] is not None else (5 if via["adaptive"] else 4)
+            ref = np.array([float(Fraction(1, math.factorial(k))) for k in range(n + 1)])
+            r.check("taylor_config.order", te.order == n, f"EvolveConfig({via}, taylor_order={spec['taylor_order']}).taylor_config.order = {te.order}, expected {n}")
+            got = np.asarray(te.coeff, dtype=float)
+            if r.check("taylor_config.shape", got.shape == ref.shape, f"{via} taylor_order={spec['taylor_order']}: {got.shape} coefficients"):
+                r.check_close("taylor_config.coeff", got / ref, np.ones_like(ref), 1e-14, f"{via} taylor_order={spec['taylor_order']}: ratios to 1/k!")
+            r.nontrivial = True
+            r.classes.append("taylor.via_config")
+            return r
         m = spec["method"]
-        rk = RungeKutta(m)
+        if via is None:
+            rk = RungeKutta(m)
+            adv = ADVERTISED[m]
+        else:
+            from renormalizer.utils.configs import EvolveConfig
+
+            rk = EvolveConfig(method=via["evolve"], rk_solver=m, adaptive=bool(via["adaptive"])).rk_config
+            # the object states its own orders; they must start with the order the method name promises and every row that is
+            # present must meet the order stated for it (a configuration may drop the embedded row, it may not mislabel one)
+            adv = tuple(int(x) for x in rk.order)
+            r.classes.append(f"via_config.{via['evolve']}.adaptive={via['adaptive']}")
+            if not r.check("config.order", len(adv) >= 1 and adv == ADVERTISED[m][:len(adv)],
+                           f"EvolveConfig(rk_solver={m!r}, {via}).rk_config.order = {rk.order}, method advertises {ADVERTISED[m]}"):
+                return r
         a, b, c = rk.tableau
+        b = np.atleast_2d(b)
         if kind == "structure":
             s = STAGES[m]
-            r.check("struct.stage", rk.stage == s and a.shape == (s, s) and b.shape == (len(ADVERTISED[m]), s)
+            r.check("struct.stage", rk.stage == s and a.shape == (s, s) and b.shape == (len(adv), s)
                     and c.shape == (s,), f"{m}: stage={rk.stage} shapes {a.shape} {b.shape} {c.shape}")
-            r.check("struct.order", tuple(rk.order) == ADVERTISED[m], f"{m}: order {rk.order} advertised {ADVERTISED[m]}")
+            r.check("struct.order", tuple(rk.order) == adv, f"{m}: order {rk.order} advertised {adv}")
             r.check_close("struct.rowsum", a.sum(axis=1), c, 1e-14, f"{m}: c_i = sum_j a_ij")
             r.check("struct.explicit", np.all(np.triu(a) == 0), f"{m}: a not strictly lower triangular")
             r.nontrivial = True
@@ -161,8 +209,8 @@ class C19(Prop):
             return r
         if kind == "ti":
             coeff = np.atleast_2d(rk.runge_kutta_ti_coefficient())
-            r.check("ti.shape", coeff.shape == (len(ADVERTISED[m]), STAGES[m] + 1), f"{m}: shape {coeff.shape}")
-            for row, p in enumerate(ADVERTISED[m]):
+            r.check("ti.shape", coeff.shape == (len(adv), STAGES[m] + 1), f"{m}: shape {coeff.shape}")
+            for row, p in enumerate(adv):
                 if row < coeff.shape[0]:
                     ref = np.array([1.0 / math.factorial(k) for k in range(p + 1)])
                     r.check_close("ti.coeff", coeff[row, : p + 1], ref, 1e-13, f"{m} row {row}")
@@ -172,7 +220,12 @@ class C19(Prop):
         if kind == "tree":
             t = to_tuple(spec["tree"])
             row = spec["row"]
-            p = ADVERTISED[m][row]
+            if row >= len(adv):
+                r.classes.append("tree.row_absent_in_this_configuration")
+                return r
+            if not r.check("config.rows", b.shape[0] == len(adv), f"{m} {via}: {b.shape[0]} weight rows for orders {adv}"):
+                return r
+            p = adv[row]
             val = float(b[row] @ phi(t, a))
             ref = 1.0 / gamma(t)
             o = order(t)
@@ -239,10 +292,14 @@ class C19(Prop):
             fk = f(t0 * const + hser, y)
             y[k + 1] = fk[k] / (k + 1)
         a, b, c = rk.tableau
+        b = np.atleast_2d(b)
         m = spec["method"]
         r.classes.append(f"ode.{m}.dim{d}")
         nonlinear = bool(np.any(Q != 0) or np.any(cub != 0))
-        for row, p in enumerate(ADVERTISED[m]):
+        # through the configuration object the rows present are judged by the orders the object states (checked against the
+        # method name in run_case)
+        adv = ADVERTISED[m] if spec.get("via") is None else tuple(int(x) for x in rk.order)[: b.shape[0]]
+        for row, p in enumerate(adv):
             ks = []
             for i in range(rk.stage):
                 yi = np.zeros((DEG + 1, d))
